@@ -486,3 +486,33 @@ def deparam(f, idx, ctx):
                 continue
         break
     return f, idx, ctx
+
+
+def no_thread_edge(p, q, lab):
+    # after the thread was started, the "there is no thread" outcome of a test of the handle is not a real path: the
+    # not-joinable edge of joinable(), and the null edge of any null test of the (smart) pointer to the thread
+    # (`if (t)`, `t != nullptr`, `!t`, `t.get() == nullptr` ...)
+    if not lab or not isinstance(lab[0], int):
+        return False
+    ff = lab[1]
+    core, pol = norm_cond(ff, lab[0])
+    truth = lab[2] if pol else (not lab[2])
+    cn = ff.nodes[core]
+    if cn['k'] == 'call' and qmatch(cn.get('c', ''), 'std::thread::joinable'):
+        return truth is False
+    subj, null_when = None, None
+    if cn['k'] == 'call' and cn.get('op') in ('==', '!='):
+        ops = ([cn['obj']] if cn.get('obj') is not None else []) + [a for a in cn.get('args', []) if a is not None and a >= 0]
+        if len(ops) == 2:
+            t0, t1 = (ff.nodes[ops[0]].get('t') or ''), (ff.nodes[ops[1]].get('t') or '')
+            if 'nullptr' in t1 or strip_casts(ff, ops[1]).get('v') == 0:
+                subj, null_when = ops[0], (cn['op'] == '==')
+            elif 'nullptr' in t0:
+                subj, null_when = ops[1], (cn['op'] == '==')
+    elif cn['k'] == 'call' and qmatch(cn.get('c', ''), 'operator bool') and cn.get('obj') is not None:
+        subj, null_when = cn['obj'], False
+    elif 'std::thread' in (cn.get('t') or ''):
+        subj, null_when = core, False
+    if subj is not None and 'std::thread' in (ff.nodes[subj].get('t') or '' ) + (strip_casts(ff, subj).get('t') or ''):
+        return truth is null_when
+    return False
